@@ -222,7 +222,7 @@ def main():
                 if replay_diffs <= 2:
                     violation("oracle-failure", dict(
                         what="two independent replays of the same history on fresh Pie instances (separate processes, fresh hash seeds) differ",
-                        case=dict(kind=c.kind, body=c.body), failures=[f"line {d[0]}: first replay '{d[1]}', replay #{k + 2} '{d[2]}'"],
+                        case=dict(kind=c.kind, body=c.body, meta=c.meta), failures=[f"line {d[0]}: first replay '{d[1]}', replay #{k + 2} '{d[2]}'"],
                         implementation=a, second_replay=b))
     stats["independent_replays_per_case"] = 1 + nrep_runs
     stats["replay_differences"] = replay_diffs
@@ -247,7 +247,7 @@ def main():
             sio, smo = run_both([small])
             violation("oracle-failure", dict(
                 what="the implementation violates the executable statement of the property on this input",
-                case=dict(kind=small.kind, body=small.body), original_case=dict(kind=c.kind, id=c.cid, body=c.body),
+                case=dict(kind=small.kind, body=small.body, meta=small.meta), original_case=dict(kind=c.kind, id=c.cid, body=c.body),
                 failures=cfg["oracle"](small, sio.get((small.kind, small.cid), [])) or fails,
                 implementation=sio.get((small.kind, small.cid), []), model=smo.get((small.kind, small.cid), [])))
         reported += 1
@@ -274,14 +274,14 @@ def main():
         if found:
             violation("oracle-failure", dict(
                 what="correspondence broke; search found an input on which the implementation violates the property",
-                case=dict(kind=found[0].kind, body=found[0].body), failures=found[1],
+                case=dict(kind=found[0].kind, body=found[0].body, meta=found[0].meta), failures=found[1],
                 correspondence=detail, implementation=pio.get((found[0].kind, found[0].cid), [])))
         else:
             d = V.first_diff(cfg["proj"](small, strip(sio.get((small.kind, small.cid), []))), cfg["proj"](small, strip(smo.get((small.kind, small.cid), []))))
             violation("correspondence", dict(
                 what=f"correspondence '{detail['projection']}' between the Lean model and the implementation no longer checks; "
                      "no input violating the property itself was found",
-                case=dict(kind=small.kind, body=small.body), first_difference=dict(line=d[0], implementation=d[1], model=d[2]) if d else detail,
+                case=dict(kind=small.kind, body=small.body, meta=small.meta), first_difference=dict(line=d[0], implementation=d[1], model=d[2]) if d else detail,
                 implementation=sio.get((small.kind, small.cid), []), model=smo.get((small.kind, small.cid), [])), no_input=True)
     for k in known:
         # replay the recorded history of each known finding on the real crates
@@ -336,7 +336,7 @@ def replay(prop, cfg, path):
         print(json.dumps(r, indent=1)[:4000]); sys.exit(1)
     ok_h, hlog = V.build_harness()
     V.build_lean(["driver"])
-    c = Case(r["case"]["kind"], "replay", r["case"]["body"])
+    c = Case(r["case"]["kind"], "replay", r["case"]["body"], r["case"].get("meta") or {})
     impl, model = run_both([c])
     io, mo = impl.get((c.kind, c.cid), []), model.get((c.kind, c.cid), [])
     print("--- case"); print(c.text())
